@@ -48,6 +48,9 @@ type linEvent struct {
 	Val    *world.CP           `json:"val,omitempty"`
 	Db0    map[string]world.CP `json:"db0,omitempty"`
 	Stored map[string]world.CP `json:"stored,omitempty"`
+	Name   string              `json:"name,omitempty"` // op event: storage call
+	Res    string              `json:"res,omitempty"`  // op event: ok | err
+	Scen   string              `json:"scen,omitempty"`
 	Calls  []opCall            `json:"calls,omitempty"`
 	Drift  []string            `json:"drift,omitempty"`
 }
@@ -244,6 +247,7 @@ func execOpsRun(base *world.World, r opsRun, storeKind string, seed int64, dir s
 		if r.WaitMS > 0 {
 			g.wait = time.Duration(r.WaitMS) * time.Millisecond
 		}
+		g.onOp = func(c opCall) { rec.add(linEvent{E: "op", Run: tag, P: c.P, Name: c.Name, Res: c.Res}) }
 	}
 	var wg sync.WaitGroup
 	for _, p := range pids {
